@@ -1,6 +1,6 @@
 (** Lemmas about the S3 model, part A: strings, paths::join laws, the prefix_offset slicing,
     paging independence of list_prefix, keys of trees. *)
-From Rocfl Require Import Base.Bytes Generated.Consts Model.S3 Model.KnownS3 Proofs.BytesFacts.
+From Rocfl Require Import Base.Bytes Generated.Consts Model.S3 Proofs.BytesFacts.
 From Coq Require Import ZArith Lia ZifyBool ZifyN ZifyNat.
 Open Scope N_scope.
 
@@ -282,14 +282,103 @@ Proof.
     + intros Hb. rewrite <- app_assoc. cbn [app]. now apply (slice_under (c :: cp)).
 Qed.
 
-(** with a trailing slash on the prefix one character too many is cut off *)
-Lemma prefix_offset_trailing_slash_witness :
-  let cp := b "pre/" in let key := b "pre/0=ocfl_1.0" in
-  c15_prefix_trailing_slash cp = true /\
-  key = join cp (b "0=ocfl_1.0") /\
-  starts_with (request_prefix cp []) key = true /\
-  slice_from (prefix_offset cp) key = Ok (b "=ocfl_1.0") /\
-  list_all [key] cp [] true = Ok ([b "=ocfl_1.0"], []).
+(* ------------------------------------------------------------------ the stored prefix (s3.rs:741) *)
+
+Lemma trim_cons c r : trim_trailing_slashes (c :: r) =
+  match trim_trailing_slashes r with [] => if is_slash c then [] else [c] | r' => c :: r' end.
+Proof. reflexivity. Qed.
+
+(** what trim_end_matches('/') leaves does not end with a slash *)
+Lemma trim_last s : last_is_slash (trim_trailing_slashes s) = false.
+Proof.
+  induction s as [|c s IH]; [reflexivity|]. rewrite trim_cons.
+  destruct (trim_trailing_slashes s) as [|d t] eqn:E.
+  - destruct (is_slash c) eqn:C; [reflexivity|]. cbn. exact C.
+  - rewrite last_is_slash_cons_false by discriminate. exact IH.
+Qed.
+
+Lemma client_prefix_pfx_ok raw : pfx_ok (client_prefix raw) = true.
+Proof. unfold pfx_ok, client_prefix. now rewrite trim_last. Qed.
+
+(** only trailing slashes are removed: the given value is the stored one plus n slashes *)
+Lemma trim_decompose s : exists n, s = trim_trailing_slashes s ++ repeat slash n.
+Proof.
+  induction s as [|c s [n IH]].
+  - exists O. reflexivity.
+  - rewrite trim_cons. destruct (trim_trailing_slashes s) as [|d t] eqn:E.
+    + destruct (is_slash c) eqn:C.
+      * apply is_slash_eq in C. subst c. exists (S n). cbn [app repeat]. now rewrite IH at 1.
+      * exists n. cbn [app]. now rewrite IH at 1.
+    + exists n. cbn [app]. now rewrite IH at 1.
+Qed.
+
+(** a value without trailing slash is stored as it is *)
+Lemma trim_id s : last_is_slash s = false -> trim_trailing_slashes s = s.
+Proof.
+  induction s as [|c s IH]; [reflexivity|]. intros H. rewrite trim_cons.
+  destruct s as [|d s].
+  - cbn in H. cbn. now rewrite H.
+  - cbn [last_is_slash] in H. rewrite (IH H). reflexivity.
+Qed.
+
+Lemma trim_idem s : trim_trailing_slashes (trim_trailing_slashes s) = trim_trailing_slashes s.
+Proof. apply trim_id, trim_last. Qed.
+
+Lemma trim_snoc_slash s : trim_trailing_slashes (s ++ [slash]) = trim_trailing_slashes s.
+Proof.
+  induction s as [|c s IH]; [reflexivity|]. cbn [app]. now rewrite !trim_cons, IH.
+Qed.
+
+(** "pre/", "pre//", ... are stored exactly like "pre" *)
+Lemma trim_app_slashes s n : trim_trailing_slashes (s ++ repeat slash n) = trim_trailing_slashes s.
+Proof.
+  induction n as [|n IH]; [now rewrite app_nil_r|].
+  replace (repeat slash (S n)) with (repeat slash n ++ [slash]) by (now rewrite <- repeat_cons).
+  now rewrite app_assoc, trim_snoc_slash.
+Qed.
+
+Lemma client_prefix_spec raw :
+  pfx_ok (client_prefix raw) = true /\ exists n, raw = client_prefix raw ++ repeat slash n.
+Proof. split; [apply client_prefix_pfx_ok|apply trim_decompose]. Qed.
+
+Lemma client_prefix_trailing_slashes_irrelevant raw n :
+  client_prefix (raw ++ repeat slash n) = client_prefix raw /\
+  (pfx_ok raw = true -> client_prefix raw = raw).
+Proof.
+  split; [apply trim_app_slashes|]. unfold pfx_ok. intros H. apply trim_id.
+  now destruct (last_is_slash raw).
+Qed.
+
+Lemma prefix_slash_cases :
+  client_prefix (b "pre/") = b "pre" /\ client_prefix (b "pre//") = b "pre" /\
+  client_prefix (b "/") = b "" /\ client_prefix (b "//") = b "" /\
+  client_prefix (b "/pre") = b "/pre" /\ client_prefix (b "//pre/") = b "//pre" /\
+  client_prefix (b "a//b/") = b "a//b" /\
+  (let cp := client_prefix (b "pre/") in let key := b "pre/0=ocfl_1.0" in
+   key = join cp (b "0=ocfl_1.0") /\ list_all [key] cp [] true = Ok ([b "0=ocfl_1.0"], [])) /\
+  (let cp := client_prefix (b "/") in let key := b "0=ocfl_1.0" in
+   key = join cp (b "0=ocfl_1.0") /\ list_all [key] cp [] true = Ok ([b "0=ocfl_1.0"], [])) /\
+  (let cp := client_prefix (b "/pre") in let key := b "/pre/a/0=ocfl_object_1.0" in
+   key = join cp (b "a/0=ocfl_object_1.0") /\ list_all [key] cp [] true = Ok ([], [b "a"]) /\
+   list_all [key] cp (b "a") false = Ok ([b "a/0=ocfl_object_1.0"], [])).
+Proof. repeat split; reflexivity. Qed.
+
+(** HISTORICAL NOTE (not a statement about the current code): before /repo commit 1405318
+    S3Client::new kept the raw prefix ([client_prefix_before_fix]); with "pre/" the key was
+    written where it belongs but every listing cut off one character too many.  With the
+    repaired [client_prefix] the same input gives the right answer. *)
+Lemma prefix_trailing_slash_before_fix :
+  let raw := b "pre/" in let key := b "pre/0=ocfl_1.0" in
+  (let cp := client_prefix_before_fix raw in
+   key = join cp (b "0=ocfl_1.0") /\
+   starts_with (request_prefix cp []) key = true /\
+   slice_from (prefix_offset cp) key = Ok (b "=ocfl_1.0") /\
+   list_all [key] cp [] true = Ok ([b "=ocfl_1.0"], [])) /\
+  (let cp := client_prefix raw in
+   key = join cp (b "0=ocfl_1.0") /\
+   starts_with (request_prefix cp []) key = true /\
+   slice_from (prefix_offset cp) key = Ok (b "0=ocfl_1.0") /\
+   list_all [key] cp [] true = Ok ([b "0=ocfl_1.0"], [])).
 Proof. repeat split; reflexivity. Qed.
 
 (* ------------------------------------------------------------------ paging *)
@@ -656,6 +745,3 @@ Proof.
   { intros k Hk. now apply filter_In in Hk. }
   exists rels. now rewrite E1.
 Qed.
-
-Lemma c15_class_pfx_ok cp : c15_prefix_trailing_slash cp = false <-> pfx_ok cp = true.
-Proof. unfold c15_prefix_trailing_slash, pfx_ok. destruct (last_is_slash cp); cbn; split; congruence. Qed.
